@@ -69,6 +69,16 @@ def jobs(tier, seed):
             for op in ("eval", "rev_all", "diff_at_early_all", "diff_at_all", "fwd"):
                 js.append({"mode": "order", "d": d, "op": op, "supplied": vs[:-1], "perm": list(range(len(vs) - 1))[::-1]})
                 js.append({"mode": "order", "d": d, "op": op, "supplied": vs[1:], "perm": list(range(len(vs) - 1))[::-1]})
+                if len(vs) >= 3:
+                    js.append({"mode": "order", "d": d, "op": op, "supplied": vs[:1], "perm": [0]})
+                js.append({"mode": "order", "d": d, "op": op, "supplied": [], "perm": []})
+    # one-variable expressions at points that carry extra coordinates (Derivative accepts a Point too)
+    for d in [["NthPower", X, 2], ["Multiply", X, ["Exponential", X]], ["Logarithm", X], ["Divide", ["Sine", X], X]]:
+        for extra in (["t"], ["a", "t"], ["zz", "a"]):
+            sup = ["x"] + extra
+            for perm in ([list(range(len(sup)))[::-1]] if tier == "quick" else [list(q) for q in itertools.permutations(range(len(sup)))][1:]):
+                for op in ("deriv", "eval", "rev_all", "diff_at_early_all"):
+                    js.append({"mode": "order", "d": d, "op": op, "supplied": sup, "perm": perm})
     if tier == "thorough":
         for d in fam.f2_quick(6, 0):
             if len(rt.variables_of(d)) >= 2:
@@ -94,7 +104,7 @@ def prepare(spec, ctx):
 def observable(o):
     """structural observable of an outcome: kind + printed expression(s) / list of z3 terms"""
     if o["kind"] != "value":
-        return (o["kind"],)
+        return (o["kind"], o.get("msg"))      # which variable / value an error message names is part of the outcome
     v = o["value"]
     if type(v).__name__ == "Shown":
         return ("expr", repr(v))
@@ -113,7 +123,7 @@ def seeds_judge(spec, twin):
                 sp["perm"] = list(range(len(spec.get("perm", []))))
             for s in SEEDS:
                 outs = hrun.run_concrete(sp, enc, hashseed=s)
-                sig = [(o.get("kind"), o.get("value")) for o in outs]
+                sig = [(o.get("kind"), o.get("value"), o.get("msg")) for o in outs]
                 sig = sig[:1] if perm is None else sig[1:]       # first run: canonical coordinate order, second: permuted
                 if base is None:
                     base = (s, perm, sig)
